@@ -9,6 +9,27 @@
 #![allow(dead_code, unused_imports)]
 use super::*;
 
+// ---- connlevel helpers begin
+impl<T> FramedRead<T> {
+    pub(crate) fn vk_max_header_list_size(&self) -> usize {
+        self.max_header_list_size
+    }
+
+    pub(crate) fn vk_max_continuation_frames(&self) -> usize {
+        self.max_continuation_frames
+    }
+
+    pub(crate) fn vk_hpack(&self) -> &hpack::Decoder {
+        &self.hpack
+    }
+
+    pub(crate) fn vk_max_frame_size(&self) -> usize {
+        self.inner.decoder().max_frame_length()
+    }
+}
+// ---- connlevel helpers end
+
+
 #[cfg(kani)]
 mod proofs {
     use super::*;
